@@ -97,6 +97,24 @@ def write_evidence(ctx, nviol, extra=None):
 
 
 def main(argv=None):
+    """Entry point (collects leftover coroutine objects of explored
+    histories before interpreter teardown, which would be noisy)."""
+    import gc
+    import warnings
+    try:
+        rc = _main(argv)
+    finally:
+        for pool in _POOLS.values():
+            pool.terminate()
+            pool.join()
+        _POOLS.clear()
+    warnings.filterwarnings('ignore', category=RuntimeWarning)
+    sys.unraisablehook = lambda *a: None   # teardown of unfinished coroutines
+    gc.collect()
+    return rc
+
+
+def _main(argv=None):
     ap = argparse.ArgumentParser()
     ap.add_argument('pid')
     ap.add_argument('--tier', default=os.environ.get('VERIF_TIER') or 'quick',
@@ -189,17 +207,28 @@ def _wcall(a):
     return getattr(importlib.import_module(mod), fn)(arg)
 
 
+_POOLS = {}
+
+
+def _get_pool(n, need_substrate, init):
+    import multiprocessing as mp
+    k = (need_substrate, init)
+    if k not in _POOLS:
+        mpctx = mp.get_context('spawn')
+        pool = mpctx.Pool(n, initializer=_winit,
+                          initargs=(need_substrate, init))
+        _POOLS[k] = pool
+    return _POOLS[k]
+
+
 def pmap(ctx, modname, fnname, args, need_substrate=True, init=None,
          chunksize=1):
-    """Ordered parallel map of module-level function over args."""
+    """Ordered parallel map of a module-level function over args; worker
+    processes persist for the lifetime of the check."""
     args = list(args)
-    n = min(ctx.nproc, len(args))
-    if n <= 1:
+    if ctx.nproc <= 1 or len(args) <= 1:
         _winit(need_substrate, init)
         return [_wcall((modname, fnname, a)) for a in args]
-    import multiprocessing as mp
-    mpctx = mp.get_context('spawn')
-    with mpctx.Pool(n, initializer=_winit,
-                    initargs=(need_substrate, init)) as pool:
-        return pool.map(_wcall, [(modname, fnname, a) for a in args],
-                        chunksize=chunksize)
+    pool = _get_pool(ctx.nproc, need_substrate, init)
+    return pool.map(_wcall, [(modname, fnname, a) for a in args],
+                    chunksize=chunksize)
